@@ -252,7 +252,11 @@ def check_property(prop, tier, seed):
     fn_assumed = sorted({p for r in results.values() if not isinstance(r, Undecided) for p in r["assume_list"]} - set(fn_under_contract))
     smt_ms = sum(f["ms"] for r in results.values() if not isinstance(r, Undecided) for f in r["functions"])
     slow = sorted([f for r in results.values() if not isinstance(r, Undecided) for f in r["functions"]], key=lambda x: -x["ms"])[:8]
-    obligations = verified + errors + leaf["obligations"]
+    # obligations of THIS property: every Verus function-level query that verified, plus the queries with a
+    # deciding failure; queries whose only failures are non-deciding (foreign labels, waived known findings,
+    # implicit obligations in units that do not decide them) are listed separately and not counted
+    deciding_fail_fns = {(f.get("unit"), f.get("fn")) for f in new}
+    obligations = verified + len(deciding_fail_fns) + leaf["obligations"]
     discharged = verified + leaf["discharged"]
     # known-finding failures are not counted as obligations of this run (they are waived and listed)
     waived_queries = len({(f.get("fn")) for _, f in kf_lines})
@@ -262,7 +266,8 @@ def check_property(prop, tier, seed):
         "seed": int(seed),
         "level": "proof",
         "coverage": {
-            "obligations": max(0, obligations - waived_queries) if not new else obligations,
+            "obligations": obligations,
+            "queries_with_only_nondeciding_failures": max(0, errors - len(deciding_fail_fns)),
             "discharged": discharged,
             "checker_cmd": "; ".join(r["cmd"] for r in results.values() if not isinstance(r, Undecided)) + ("; " + leaf["cmd"] if leaf["cmd"] else ""),
             "trusted_base": cfg.get("trusted_base", []) + ["Verus " + verus_version() + " / Z3", "rustc front end", "extractor rewrite rules R1-R12 (engine/extract)"],
